@@ -1,6 +1,7 @@
 import Ypv.Lemmas.Diff
 import Ypv.Lemmas.DiffKey
 import Ypv.Lemmas.DiffAll
+import Ypv.Lemmas.DiffRules
 /-!
 # C06 — a diff is truthful and complete; it is empty of changes iff the data are equal
 
@@ -373,6 +374,103 @@ example :
     let d : Node := .seq none [.map none [(.str "id".toList, .scalar none (.int 1))], .map none [(.str "id".toList, .scalar none (.int 1))]]
     idOk ⟨.value, .deep⟩ l r = false ∧ clean (report ⟨.value, .deep⟩ l r) = false ∧ dataEq ⟨.value, .deep⟩ l r = true ∧
       idOk ⟨.position, .deep⟩ d d = false := by decide +kernel
+
+/-! ## Per-path comparison modes: the `[rules]` / `[keys]` sections of the configuration file
+
+`Model/DiffRules.lean` (namespace `Ypv.Diff.Rules`): the comparers with the coordinate (node, parent, parentref) of
+the right-hand node threaded through, `_get_config_for`, `array_diff_mode` / `aoh_diff_mode` / `aoh_diff_key` with the
+precedence `[rules]` > command line > `[defaults]` > POSITION; `Rules.report glob rules keys l r` takes the addresses
+of the nodes of `r` that `DifferConfig.prepare` matched.  Outcome: a report or a `Crash`. -/
+
+/-- **`_get_config_for` returns the text of the FIRST stored entry whose node, parent and parentref are `==`
+(Python equality, not identity) to those of the node asked about** — `""` when there is none. -/
+theorem get_config_for_first_match (es : List Rules.RuleEntry) (q : Rules.Coord) :
+    Rules.getConfigFor es q = match es.find? (fun e => Rules.coordMatch e.nc q) with
+      | some e => e.text
+      | none => [] :=
+  Rules.getConfigFor_eq_find es q
+
+/-- **Without a configuration file the per-path model is the model of the global modes**: same report, no crash —
+for every document pair, both `strict` values, every array × AoH mode.  (So every theorem above is a theorem
+about `Rules.diff` at `PCfg.plain c`.) -/
+theorem rules_plain_is_global (s : Bool) (c : Cfg) (l r : Node) :
+    Rules.diff s (Rules.PCfg.plain c) l r = .ok (diff s c l r) :=
+  Rules.plain_node s c l r [] none none
+
+/-- **`diff_truthful` under per-path modes.**  Any configuration `pc` (global modes, `[rules]`, `[keys]` entries as
+`DifferConfig.prepare` stores them), any two well-formed documents: if every pair of lists the comparison reaches —
+through mapping entries with the same key and list elements at the same position — resolves to a positional
+comparison under `pc` (`Rules.posReach`, decidable, Spec/DiffRules.lean: the `[rules]` entry found the way
+`_get_config_for` finds it, else the command line, else `[defaults]`, else POSITION; no mode text that makes
+`from_str` raise), then `compare_to` returns a report and every entry of it is true of the two documents: a
+SAME/CHANGE/DELETE entry's left value is what the left document holds at `e.path`, a SAME/CHANGE/ADD entry's right
+value is what the right document holds there, SAME values are equal, CHANGE values differ, an ADD has no left and a
+DELETE no right value.  Contains `diff_truthful` (`posReach_plain` + `rules_plain_is_global`); a `[rules]` entry
+`position` restores truthfulness for its list under `--arrays value` (witness below); where an entry is captured
+by an equal list elsewhere (finding C06-K3) `posReach` fails and so does truthfulness (witness below). -/
+theorem diff_truthful_rules (s : Bool) (pc : Rules.PCfg) (l r : Node)
+    (hl : wf l = true) (hr : wf r = true) (hp : Rules.posReach pc none none l r = true) :
+    ∃ rep, Rules.diff s pc l r = .ok rep ∧ ∀ e ∈ rep,
+      (e.action ≠ .add → e.lhs.isSome ∧ e.lhs = l.get? e.path)
+      ∧ (e.action ≠ .delete → e.rhs.isSome ∧ e.rhs = r.get? e.path)
+      ∧ (e.action = .add → e.lhs = none) ∧ (e.action = .delete → e.rhs = none)
+      ∧ (e.action = .same → ∃ a b, e.lhs = some a ∧ e.rhs = some b ∧ eqv a b = true)
+      ∧ (e.action = .change → ∃ a b, e.lhs = some a ∧ e.rhs = some b ∧ eqv a b = false) := by
+  obtain ⟨rep, h1, h2⟩ := Rules.truthful_node s pc l r [] none none hl hr hp
+  refine ⟨rep, h1, ?_⟩
+  intro e he
+  cases h2 e he with
+  | same q a b h1 h2 h3 => simp [h1, h2, h3]
+  | change q a b h1 h2 h3 => simp [h1, h2, h3]
+  | delete q a h1 => simp [h1]
+  | add q b h2 => simp [h2]
+
+/-- with no `[rules]` the hypothesis of `diff_truthful_rules` is `Positional` of the global modes -/
+theorem posReach_plain (c : Cfg) (hc : Positional c) (l r : Node) :
+    Rules.posReach (Rules.PCfg.plain c) none none l r = true :=
+  Rules.posReach_plain c hc l r none none
+
+/-- `{a: [1, 2]}` against `{a: [2, 1]}` with `--arrays value` and the rule `/a = position`: the hypothesis holds and
+the list is compared by position (two CHANGE entries); without the rule it is synchronised by value (clean) -/
+example :
+    let l : Node := .map none [(.str ['a'], .seq none [.scalar none (.int 1), .scalar none (.int 2)])]
+    let r : Node := .map none [(.str ['a'], .seq none [.scalar none (.int 2), .scalar none (.int 1)])]
+    let pc := Rules.prepare ⟨.value, .position⟩ r [([.key (.str ['a'])], "position".toList)] []
+    Rules.posReach pc none none l r = true ∧
+    Rules.diff false pc l r = .ok [⟨.change, [.key (.str ['a']), .idx 0], some (.scalar none (.int 1)), some (.scalar none (.int 2))⟩,
+                                   ⟨.change, [.key (.str ['a']), .idx 1], some (.scalar none (.int 2)), some (.scalar none (.int 1))⟩] ∧
+    Rules.posReach (Rules.PCfg.plain ⟨.value, .position⟩) none none l r = false ∧
+    clean (report ⟨.value, .position⟩ l r) = true := by decide +kernel
+
+/-- finding C06-K3 on the model: rule `/a/p = value`, right document `{a: {p: [1, 2]}, b: [{p: [1, 2]}]}`, left
+`b[0].p = [2, 1]`, `--aoh dpos`.  The entry stored for `a.p` is found for `b[0].p` too (equal list, equal parent, same
+key): that list is synchronised by value, `posReach` fails, and the report says `SAME b[0].p[0] 2 2` although the
+right document holds `1` there. -/
+example :
+    let p12 : Node := .seq none [.scalar none (.int 1), .scalar none (.int 2)]
+    let p21 : Node := .seq none [.scalar none (.int 2), .scalar none (.int 1)]
+    let l : Node := .map none [(.str ['a'], .map none [(.str ['p'], p12)]), (.str ['b'], .seq none [.map none [(.str ['p'], p21)]])]
+    let r : Node := .map none [(.str ['a'], .map none [(.str ['p'], p12)]), (.str ['b'], .seq none [.map none [(.str ['p'], p12)]])]
+    let pc := Rules.prepare ⟨.position, .dpos⟩ r [([.key (.str ['a']), .key (.str ['p'])], "value".toList)] []
+    let bp0 : Addr := [.key (.str ['b']), .idx 0, .key (.str ['p']), .idx 0]
+    Rules.getConfigFor pc.rules ⟨p12, some (.map none [(.str ['p'], p12)]), some (.str ['p'])⟩ = "value".toList ∧
+    Rules.posReach pc none none l r = false ∧
+    (match Rules.diff false pc l r with
+     | .ok rep => rep.any (fun e => e == ⟨.same, bp0, some (.scalar none (.int 2)), some (.scalar none (.int 2))⟩)
+     | .error _ => false) = true ∧
+    r.get? bp0 = some (.scalar none (.int 1)) := by decide +kernel
+
+/-- findings C06-K4 / C06-K5 on the model: the rule `dpos` for a record list dies in `ArrayDiffOpts.from_str`
+(`NameError`); a `[keys]` entry `n` for the single record `a[1]` dies in `lhs_ele[use_key]` (`KeyError`) when the
+left record has the inferred identity key `id` but no `n` -/
+example :
+    let rec1 : Node := .map none [(.str "id".toList, .scalar none (.int 1))]
+    let rec2 : Node := .map none [(.str "id".toList, .scalar none (.int 2))]
+    let rec2n : Node := .map none [(.str "id".toList, .scalar none (.int 2)), (.str ['n'], .scalar none (.str ['x']))]
+    let l : Node := .map none [(.str ['a'], .seq none [rec1, rec2])]
+    let r : Node := .map none [(.str ['a'], .seq none [rec1, rec2n])]
+    Rules.report ⟨.position, .position⟩ [([.key (.str ['a'])], "dpos".toList)] [] l l = .error .nameError ∧
+    Rules.report ⟨.position, .key⟩ [] [([.key (.str ['a']), .idx 1], ['n'])] l r = .error .keyError := by decide +kernel
 
 /-! ## Witnesses: the hypotheses are met by non-trivial values; the findings on the model -/
 
